@@ -227,16 +227,20 @@ func genRandom(r *c.Rng, hooked bool) Case {
 	var lastArrival int64
 	var now int64
 	for i := 0; i < steps; i++ {
+		if w.ticking && r.Chance(3, 5) {
+			if w.atSignal {
+				s.do(Op{K: OpSignal})
+			} else {
+				b := r.Chance(1, 2)
+				s.do(Op{K: OpAnswer, B: b})
+				if b && !hooked {
+					s.do(Op{K: OpSignal})
+				}
+			}
+			continue
+		}
 		x := r.Intn(100)
 		switch {
-		case w.ticking && w.atSignal && x < 60:
-			s.do(Op{K: OpSignal})
-		case w.ticking && !w.atSignal && x < 60:
-			b := r.Chance(1, 2)
-			s.do(Op{K: OpAnswer, B: b})
-			if b && !hooked {
-				s.do(Op{K: OpSignal})
-			}
 		case x < 35 || (x < 60 && len(w.order) < 2):
 			n := s.ng
 			s.ng++
